@@ -460,37 +460,56 @@ theorem paraLoop_other_bad (t : Tok) (ts : List Tok) (h1 : t.1 ≠ .KEY) (h2 : t
   rw [paraLoop_step t _ h3]
   simp [parseEntry, commentLoop_id t ts h2, endsParagraph, h3, entryBody, keyPart, h1]
 
+/-- what the converse simulation needs from a side condition `Q` on the token list: it is inherited
+    by suffixes, and it excludes a WHITESPACE token after the KEY of an entry the parser builds
+    without error -/
+structure KeyCond (Q : List Tok → Prop) : Prop where
+  suffix : ∀ pre rest, Q (pre ++ rest) → Q rest
+  key : ∀ (k : Str) (ts' : List Tok), Q ((.KEY, k) :: ts') → Ls false ts' →
+    (entryBody ((.KEY, k) :: ts')).errs = [] → HeadNot [.WHITESPACE] ts'
+
+theorem KeyCond.of_suffix {Q : List Tok → Prop} (hQ : KeyCond Q) {ts rest : List Tok} (h : Q ts)
+    (hs : ∃ pre, ts = pre ++ rest) : Q rest := by
+  obtain ⟨pre, rfl⟩ := hs
+  exact hQ.suffix _ _ h
+
+theorem KeyCond.tail {Q : List Tok → Prop} (hQ : KeyCond Q) (a : Tok) (ts : List Tok) (h : Q (a :: ts)) :
+    Q ts := hQ.suffix [a] ts h
+
 /-- a KEY token, converse direction -/
-theorem key_step_conv {p : Kind} {sol : Bool} (k : Str) (ts' : List Tok) (paras : Doc) (cur : Para)
+theorem key_step_conv {Q : List Tok → Prop} (hQ : KeyCond Q) {p : Kind} {sol : Bool} (k : Str)
+    (ts' : List Tok) (paras : Doc) (cur : Para)
     (hl : Lx p ((.KEY, k) :: ts')) (hls : Ls sol ((.KEY, k) :: ts'))
-    (hkw : keyWs ((.KEY, k) :: ts') = false) (he : (paraLoop ((.KEY, k) :: ts')).errs = []) :
+    (hkw : Q ((.KEY, k) :: ts')) (he : (paraLoop ((.KEY, k) :: ts')).errs = []) :
     ∃ v rest, loop paras cur ((.KEY, k) :: ts') = loop paras (cur ++ [(k, v)]) rest ∧
       (paraLoop ((.KEY, k) :: ts')).errs = (paraLoop rest).errs ∧
       (paraLoop ((.KEY, k) :: ts')).rest = (paraLoop rest).rest ∧
-      Lx .NEWLINE rest ∧ Ls true rest ∧ keyWs rest = false ∧ rest.length < ts'.length + 1 := by
+      Lx .NEWLINE rest ∧ Ls true rest ∧ Q rest ∧ rest.length < ts'.length + 1 := by
   have hstep := paraLoop_step (.KEY, k) ts' (by simp)
   rw [parseEntry_key _ _ rfl] at hstep
   rw [hstep] at he
   simp only [List.append_eq_nil_iff] at he
   obtain ⟨v, rest, hf, hlsr⟩ := entry_conv k ts' (Lx_tail hl) (Ls_after_key hls rfl)
-    (keyWs_key_head k ts' hkw) he.1
+    (hQ.key k ts' hkw (Ls_after_key hls rfl) he.1) he.1
   obtain ⟨cs, h1, h2, h3, h4⟩ := entry_agree k ts' v rest (Lx_tail hl) hf he.1
-  refine ⟨v, rest, loop_key _ _ _ _ _ _ hf, ?_, ?_, h3, hlsr, ?_, ?_⟩
+  have hsuf : ∃ pre, (Kind.KEY, k) :: ts' = pre ++ rest := by
+    have := suffix_of_leaves (entryBody_leaves ((.KEY, k) :: ts'))
+    rwa [h2] at this
+  refine ⟨v, rest, loop_key _ _ _ _ _ _ hf, ?_, ?_, h3, hlsr, hQ.of_suffix hkw hsuf, ?_⟩
   · rw [hstep, h2, he.1]; simp
   · rw [hstep, h2]
-  · rw [← keyWs_field k ts' v rest hf]; exact hkw
   · have := fieldValue_len _ _ _ hf; omega
 
-def ConvRoot (ts : List Tok) : Prop :=
-  ∀ (paras : Doc) (cur : Para), Lx .NEWLINE ts → Ls true ts → keyWs ts = false →
+def ConvRoot (Q : List Tok → Prop) (ts : List Tok) : Prop :=
+  ∀ (paras : Doc) (cur : Para), Lx .NEWLINE ts → Ls true ts → Q ts →
     (rootLoop ts).errs = [] → ∃ d, loop paras cur ts = .ok d
 
-def ConvPara (ts : List Tok) : Prop :=
-  ∀ (paras : Doc) (cur : Para), Lx .NEWLINE ts → Ls true ts → keyWs ts = false →
+def ConvPara (Q : List Tok → Prop) (ts : List Tok) : Prop :=
+  ∀ (paras : Doc) (cur : Para), Lx .NEWLINE ts → Ls true ts → Q ts →
     (paraLoop ts).errs = [] → (rootLoop (paraLoop ts).rest).errs = [] → ∃ d, loop paras cur ts = .ok d
 
-theorem conv_aux : ∀ n : Nat,
-    (∀ ts : List Tok, ts.length < n → ConvRoot ts) ∧ (∀ ts : List Tok, ts.length < n → ConvPara ts) := by
+theorem conv_aux {Q : List Tok → Prop} (hQ : KeyCond Q) : ∀ n : Nat,
+    (∀ ts : List Tok, ts.length < n → ConvRoot Q ts) ∧ (∀ ts : List Tok, ts.length < n → ConvPara Q ts) := by
   intro n
   induction n with
   | zero => exact ⟨fun ts h => by omega, fun ts h => by omega⟩
@@ -511,7 +530,7 @@ theorem conv_aux : ∀ n : Nat,
           rw [hu] at hb
           rw [hb] at herr
           exact ihR ts' (by omega) _ _ (Lx_after_nl hl rfl) (Ls_after_nl hls rfl)
-            (keyWs_tail _ _ hkw) herr
+            (hQ.tail _ _ hkw) herr
         | COMMENT =>
           rw [loop_comment]
           have hb := rootLoop_blank (.COMMENT, s) ts' rfl
@@ -524,14 +543,14 @@ theorem conv_aux : ∀ n : Nat,
             have := suffix_of_leaves (untilNl_leaves ((.COMMENT, s) :: ts'))
             rwa [hu] at this
           exact ihR (skipComment ts') (by omega) paras cur (Lx_skipComment ts' (Lx_tail hl))
-            (Ls_skipComment ts' (Ls_tail hls)) (keyWs_of_suffix hkw hsuf) herr
+            (Ls_skipComment ts' (Ls_tail hls)) (hQ.of_suffix hkw hsuf) herr
         | WHITESPACE => exact absurd rfl (Lx_linestart_not_ws hl)
         | KEY =>
           have hb := rootLoop_start (.KEY, s) ts' rfl
           rw [hb] at herr
           simp only [List.append_eq_nil_iff] at herr
           obtain ⟨v, rest, hloop, he, hr, hlr, hlsr, hkr, hlen'⟩ :=
-            key_step_conv s ts' paras cur hl hls hkw herr.1
+            key_step_conv hQ s ts' paras cur hl hls hkw herr.1
           rw [hloop]
           rw [he] at herr
           rw [hr] at herr
@@ -557,7 +576,7 @@ theorem conv_aux : ∀ n : Nat,
           rw [hu] at hb
           rw [hb] at herr2
           exact ihR ts' (by omega) _ _ (Lx_after_nl hl rfl) (Ls_after_nl hls rfl)
-            (keyWs_tail _ _ hkw) herr2
+            (hQ.tail _ _ hkw) herr2
         | COMMENT =>
           rw [loop_comment]
           cases ts' with
@@ -571,23 +590,102 @@ theorem conv_aux : ∀ n : Nat,
               simp only [] at herr1 herr2
               simp only [List.length_cons] at hlen
               exact ihP ts'' (by omega) paras cur (Lx_after_nl (Lx_tail hl) rfl)
-                (Ls_after_nl (Ls_tail hls) rfl) (keyWs_tail _ _ (keyWs_tail _ _ hkw)) herr1 herr2
+                (Ls_after_nl (Ls_tail hls) rfl) (hQ.tail _ _ (hQ.tail _ _ hkw)) herr1 herr2
             · exact absurd herr1 (paraLoop_comment_bad (.COMMENT, s) (kn, sn) ts'' rfl hn)
         | WHITESPACE => exact absurd rfl (Lx_linestart_not_ws hl)
         | KEY =>
           obtain ⟨v, rest, hloop, he, hr, hlr, hlsr, hkr, hlen'⟩ :=
-            key_step_conv s ts' paras cur hl hls hkw herr1
+            key_step_conv hQ s ts' paras cur hl hls hkw herr1
           rw [hloop]
           rw [he] at herr1
           rw [hr] at herr2
           exact ihP rest (by omega) paras _ hlr hlsr hkr herr1 herr2
         | _ => exact absurd herr1 (paraLoop_other_bad _ ts' (by simp) (by simp) (by simp))
 
+/-- the side condition "no WHITESPACE token directly after a KEY token" -/
+theorem keyCond_keyWs : KeyCond (fun ts => keyWs ts = false) where
+  suffix := keyWs_append_right
+  key := fun k ts' h _ _ => keyWs_key_head k ts' h
+
+/-- `KEY WHITESPACE COLON`: blanks between a field name and its colon -/
+def keyWsColon : List Tok → Bool
+  | a :: b :: c :: ts =>
+    (a.1 == .KEY && b.1 == .WHITESPACE && c.1 == .COLON) || keyWsColon (b :: c :: ts)
+  | _ => false
+
+theorem keyWsColon_tail (a : Tok) (ts : List Tok) (h : keyWsColon (a :: ts) = false) :
+    keyWsColon ts = false := by
+  match ts with
+  | [] => rfl
+  | [b] => rfl
+  | b :: c :: ts => simp only [keyWsColon, Bool.or_eq_false_iff] at h; exact h.2
+
+theorem keyWsColon_append_right (pre rest : List Tok) (h : keyWsColon (pre ++ rest) = false) :
+    keyWsColon rest = false := by
+  induction pre with
+  | nil => exact h
+  | cons a pre ih => exact ih (keyWsColon_tail a _ h)
+
+/-- a `KEY WHITESPACE COLON` triple contains a `KEY WHITESPACE` pair -/
+theorem keyWs_of_keyWsColon : ∀ (ts : List Tok), keyWsColon ts = true → keyWs ts = true
+  | [], h => by simp [keyWsColon] at h
+  | [a], h => by simp [keyWsColon] at h
+  | [a, b], h => by simp [keyWsColon] at h
+  | a :: b :: c :: ts, h => by
+    simp only [keyWsColon, Bool.or_eq_true, Bool.and_eq_true] at h
+    simp only [keyWs, Bool.or_eq_true, Bool.and_eq_true]
+    rcases h with h | h
+    · exact Or.inl ⟨h.1.1, h.1.2⟩
+    · exact Or.inr (by simpa [keyWs] using keyWs_of_keyWsColon (b :: c :: ts) h)
+
+/-- the side condition "no `KEY WHITESPACE COLON`" (with the lexer invariant `Lx2`: WHITESPACE
+    tokens are maximal): in an entry the parser builds without error, the token after the blanks
+    that follow the KEY is the COLON -/
+theorem keyCond_keyWsColon : KeyCond (fun ts => keyWsColon ts = false ∧ Lx2 .KEY ts) where
+  suffix := fun pre rest h => ⟨keyWsColon_append_right pre rest h.1, Lx2_append_right pre rest h.2⟩
+  key := by
+    intro k ts' hq hls he
+    cases ts' with
+    | nil => exact headNot_nil _
+    | cons b r =>
+      obtain ⟨kb, sb⟩ := b
+      by_cases hb : kb = .WHITESPACE
+      · exfalso
+        subst hb
+        have hlsr : Ls false r := Ls_after_other hls (by simp) (by simp)
+        cases r with
+        | nil => simp [entryBody, keyPart, colonPart, skipWs] at he
+        | cons c r2 =>
+          obtain ⟨kc, sc⟩ := c
+          have hkind := Ls_mid_kind hlsr
+          simp only at hkind
+          have hnw : kc ≠ .WHITESPACE := Lx2_after_ws (Lx2_tail hq.2) rfl
+          have hnc : kc ≠ .COLON := by
+            intro e
+            subst e
+            have := hq.1
+            simp [keyWsColon] at this
+          have hncm : kc ≠ .COMMENT := by
+            rcases hkind with h | h | h | h <;> simp [h]
+          have hsk : skipWs ((kc, sc) :: r2) = ([], (kc, sc) :: r2) :=
+            skipWs_stop _ (headNot_cons _ _ _ (by simp [hnw, hncm]))
+          have hsk2 : skipWs ((Kind.WHITESPACE, sb) :: (kc, sc) :: r2)
+              = ([tk (.WHITESPACE, sb)], (kc, sc) :: r2) := by
+            rw [skipWs]; simp [hsk]
+          simp [entryBody, keyPart, hsk2, colonPart, hnc] at he
+      · exact headNot_cons _ _ _ (by simpa using hb)
+
 /-- **token-level converse**: on a token list with the lexer invariants and without a
     `KEY WHITESPACE` pair, what the lossless parser parses without an error the lossy reader accepts -/
 theorem conv_tok (ts : List Tok) (hl : Lx .NEWLINE ts) (hls : Ls true ts) (hkw : keyWs ts = false)
     (he : (parseTokens ts).errors = []) : ∃ d, loop [] [] ts = .ok d := by
-  apply (conv_aux (ts.length + 1)).1 ts (by omega) [] [] hl hls hkw
+  apply (conv_aux keyCond_keyWs (ts.length + 1)).1 ts (by omega) [] [] hl hls hkw
+  simpa [parseTokens] using he
+
+/-- the same with the weaker side condition "no `KEY WHITESPACE COLON` triple" -/
+theorem conv_tok_colon (ts : List Tok) (hl : Lx .NEWLINE ts) (hls : Ls true ts) (hl2 : Lx2 .KEY ts)
+    (hkw : keyWsColon ts = false) (he : (parseTokens ts).errors = []) : ∃ d, loop [] [] ts = .ok d := by
+  apply (conv_aux keyCond_keyWsColon (ts.length + 1)).1 ts (by omega) [] [] hl hls ⟨hkw, hl2⟩
   simpa [parseTokens] using he
 
 /-- what the lossy reader accepts has no `KEY WHITESPACE` pair -/
